@@ -3281,8 +3281,16 @@ func (s *ImmuStore) readTx(txID uint64, allowPrecommitted bool, skipIntegrityChe
 	if errors.Is(err, io.EOF) {
 		return fmt.Errorf("%w: unexpected EOF while reading tx %d", ErrCorruptedTxData, txID)
 	}
+	if err != nil {
+		return err
+	}
 
-	return err
+	// a record that is consistent in itself is not yet the record of the requested transaction
+	if tx.header.ID != txID {
+		return fmt.Errorf("%w: tx %d found where tx %d is expected", ErrCorruptedTxData, tx.header.ID, txID)
+	}
+
+	return nil
 }
 
 func (s *ImmuStore) ReadTxHeader(txID uint64, allowPrecommitted bool, skipIntegrityCheck bool) (*TxHeader, error) {
@@ -3296,6 +3304,11 @@ func (s *ImmuStore) ReadTxHeader(txID uint64, allowPrecommitted bool, skipIntegr
 	header, err := tdr.readHeader(s.maxTxEntries)
 	if err != nil {
 		return nil, err
+	}
+
+	// a record that is consistent in itself is not yet the record of the requested transaction
+	if header.ID != txID {
+		return nil, fmt.Errorf("%w: tx %d found where tx %d is expected", ErrCorruptedTxData, header.ID, txID)
 	}
 
 	// The TxEntry's key buffer is scratch — the returned *TxHeader carries
@@ -3338,6 +3351,11 @@ func (s *ImmuStore) ReadTxEntry(txID uint64, key []byte, skipIntegrityCheck bool
 	header, err := tdr.readHeader(s.maxTxEntries)
 	if err != nil {
 		return nil, nil, err
+	}
+
+	// a record that is consistent in itself is not yet the record of the requested transaction
+	if header.ID != txID {
+		return nil, nil, fmt.Errorf("%w: tx %d found where tx %d is expected", ErrCorruptedTxData, header.ID, txID)
 	}
 
 	e := &TxEntry{k: make([]byte, s.maxKeyLen)}
